@@ -123,6 +123,9 @@ def mk_value(spec):
         return spec[1]
     if k == "none":
         return None
+    if k == "rinfo":
+        from fim.slivers.capacities_labels import ReservationInfo
+        return ReservationInfo(reservation_state=spec[1])
     if k == "mdir":
         from fim.slivers.network_service import MirrorDirection
         return MirrorDirection[spec[1]]
@@ -601,6 +604,38 @@ class Session:
                     args["interface_labels"] = [Labels() for _ in range(op["n_labels"])]
                 call = lambda: H("parent").add_component(**args)
                 post = lambda r: (self.add_handle("comp", r), r.node_id, None)
+            elif k == "prune":
+                # the four sets are iterated in hash order: record the order in which the call visits what it prunes
+                rec = {"nodes": [], "comps": [], "nss": [], "ifs": []}
+                line.update(rec)
+
+                def call():
+                    import fim.user.topology as ft
+                    cls = ft.ExperimentTopology
+                    orig = (cls._prune_node, cls._prune_components, cls._prune_ns, cls._prune_interface)
+
+                    def pn(self_, node):
+                        rec["nodes"].append(node.name)
+                        return orig[0](self_, node)
+
+                    def pc(self_, c, parent):
+                        rec["comps"].append([c.node_id, c.name, parent.node_id])
+                        return orig[1](self_, c, parent)
+
+                    def ps(self_, ns):
+                        rec["nss"].append(ns.node_id)
+                        return orig[2](self_, ns)
+
+                    def pi(self_, i):
+                        rec["ifs"].append(i.node_id)
+                        return orig[3](self_, i)
+                    cls._prune_node, cls._prune_components, cls._prune_ns, cls._prune_interface = pn, pc, ps, pi
+                    try:
+                        return t.prune(op["state"])
+                    finally:
+                        cls._prune_node, cls._prune_components, cls._prune_ns, cls._prune_interface = orig
+                        line.update(rec)
+                post = lambda r: (None, None, None)
             else:
                 raise ValueError("unknown op %r" % k)
         except KeyError as e:
@@ -762,9 +797,16 @@ def gen_op(rng, sess, names, fault=0.0, ext=False):
             menu += ["add_port_mirror"]
         if nodes:
             menu += ["add_component_mt"] * 2
+        if fl == "exp" and (nodes or svcs):
+            menu += ["mark"] * 2 + ["prune"]
     k = rng.choice(menu)
     op = {"op": k}
     existing_node_names = [h.obj.name for h in nodes]
+    if k == "mark":          # set reservation_info on an element, for prune to find
+        h = rng.choice(nodes + comps + svcs + ifaces)
+        return {"op": "set_props", "h": h.key, "kw": [["reservation_info", ["rinfo", rng.choice(["Failed", "Failed", "Closed"])]]]}
+    if k == "prune":
+        return {"op": "prune", "state": rng.choice(["Failed", "Failed", "Closed", "Nascent"])}
     if k == "add_child_interface":
         p = rng.choice(ded)
         vl = str(rng.randrange(100, 130))
